@@ -79,6 +79,28 @@ def plan(tier, seed):
             "values": values, "seed": seed, "x64": x64, "num_iters": iters,
             "profile": {"x64": x64}, "part": "newton_budget",
             "weight": len(spectra(n, values))})
+  # jax_enable_x64 switched on after the library was imported: the float64
+  # working precision must be resolved when the routine is traced, not when
+  # the module is loaded
+  for n in [3, 5]:
+    for method in ["newton", "eigh"]:
+      tasks.append({
+          "name": "%s/n%d/k0/e1e-06r/f64/x64late" % (method, n),
+          "n": n, "pad": 0, "eps": 1e-6, "rel": True, "method": method,
+          "values": values, "seed": seed, "x64": True,
+          "profile": {"x64": True, "x64_late": True}, "part": "x64_late",
+          "weight": len(spectra(n, values))})
+  # a previous root handed in as `prev` (what reuse_preconditioner does):
+  # the root of a nearby matrix with other eigenvectors; the figure reported
+  # with the result must still be the result's own residual
+  for n in [3, 5]:
+    tasks.append({
+        "name": "newton/n%d/k0/e1e-06r/f64/prev" % n,
+        "n": n, "pad": 0, "eps": 1e-6, "rel": True, "method": "newton",
+        "values": [1e-2, 1.0] if tier == "quick" else [1e-4, 1e-2, 1.0],
+        "seed": seed, "x64": True, "with_prev": True,
+        "profile": {"x64": True}, "part": "newton_prev",
+        "weight": 30})
   # all-padding matrices (padding_start = 0)
   for method in ["newton", "eigh"]:
     tasks.append({"name": "%s/allpad" % method, "kind": "allpad",
@@ -185,6 +207,24 @@ def run_task(task):
     return ds.matrix_inverse_pth_root(a, p, padding_start=ps, **kw)
 
   fn = jax.jit(jax.vmap(one, in_axes=(0, None, None)))
+  if task.get("with_prev"):
+    def one_prev(a, p, ps, prev):
+      return ds.matrix_inverse_pth_root(a, p, padding_start=ps, prev=prev,
+                                        **kw)
+    fn_prev = jax.jit(jax.vmap(one_prev, in_axes=(0, None, None, 0)))
+    vgen = np.cos(np.arange(1, nt + 1) * 1.7)
+    vgen /= np.linalg.norm(vgen)
+
+    def prevs(p):
+      out = []
+      for m in mats:
+        a0 = m.astype(np.float64)
+        lmx = np.linalg.eigvalsh(a0)[-1]
+        a1 = a0 + 0.05 * lmx * np.outer(vgen, vgen) + eps * lmx * np.eye(nt)
+        w, q = np.linalg.eigh(a1)
+        out.append((q * w ** (-1.0 / p)) @ q.T)
+      return jnp.asarray(np.stack(out).astype(dt))
+    fn = lambda m_, p_, ps_: fn_prev(m_, p_, ps_, prevs(int(p_)))
   ps = jnp.asarray(n, jnp.int32)
   ident = np.zeros((nt, nt))
   ident[:n, :n] = np.eye(n)
